@@ -124,9 +124,23 @@ func newMainWorld(p *Plan) (*mainWorld, error) {
 		st.xsigs = int(p.Cfg.Extra[fmt.Sprintf("xsig%d", i)])
 		m.stubs = append(m.stubs, st)
 		m.sn.Hosts[host] = st
+		if kind == "pixel" || kind == "serverless" {
+			m.sn.Hosts[host] = &otherLayoutStub{st: st}
+		}
 		if kind == "rekor" {
 			// a Rekor-style log: log info as JSON (the configured tree is the active shard, or one of the inactive ones), proofs as JSON
-			m.sn.Hosts[host] = &rekorStub{st: st, treeID: fmt.Sprint(7000 + i), inactive: p.Cfg.Extra[fmt.Sprintf("ext%d", i)] != 0}
+			rs := &rekorStub{st: st, treeID: fmt.Sprint(7000 + i), inactive: p.Cfg.Extra[fmt.Sprintf("ext%d", i)] != 0}
+			m.sn.Hosts[host] = rs
+			if p.Cfg.Extra["rekor_shared"] != 0 {
+				// as deployed: the shards of one Rekor instance are configured with the same URL and differ in the treeID parameter only
+				host = "rekor.example"
+				multi, _ := m.sn.Hosts[host].(*rekorMulti)
+				if multi == nil {
+					multi = &rekorMulti{}
+					m.sn.Hosts[host] = multi
+				}
+				multi.shards = append(multi.shards, rs)
+			}
 		}
 		if p.Cfg.Extra["redirected_logs"] != 0 && i > 0 && kind != "rekor" {
 			// the configured URL is an alias that redirects to where the log lives
@@ -137,7 +151,7 @@ func newMainWorld(p *Plan) (*mainWorld, error) {
 			host = alias
 		}
 		url := "http://" + host
-		if kind == "tiles" {
+		if kind == "tiles" || kind == "pixel" || kind == "serverless" {
 			url += "/"
 		}
 		if kind == "rekor" {
@@ -414,10 +428,93 @@ func (w faultyW) GetLatest() ([]byte, error) {
 }
 
 // rekorStub serves a tileStub's log the way a Rekor instance does.
+// otherLayoutStub serves the tileStub's growing tree in the two other tile layouts the repository has feeders for: Pixel
+// binary transparency (checkpoint.txt, height-1 tiles tile/1/<level>/<NNN>[.p/<w>]) and serverless-log (checkpoint,
+// tile/<level>/<index as path of hex bytes>[.<width>]). Every tile path is validated; a malformed one is recorded.
+type otherLayoutStub struct{ st *tileStub }
+
+func (h *otherLayoutStub) ServeHTTP(rw http.ResponseWriter, rq *http.Request) {
+	st := h.st
+	p := rq.URL.Path
+	if (st.kind == "pixel" && p == "/checkpoint.txt") || (st.kind == "serverless" && p == "/checkpoint") {
+		rw.Write(st.checkpoint())
+		return
+	}
+	st.mu.Lock()
+	tree, size := st.tree, st.size
+	st.mu.Unlock()
+	var b []byte
+	ok, wellFormed := false, false
+	switch st.kind {
+	case "pixel":
+		f := strings.Split(strings.TrimPrefix(p, "/"), "/")
+		if (len(f) == 4 || len(f) == 5) && f[0] == "tile" && f[1] == "1" {
+			l, e1 := strconv.Atoi(f[2])
+			n, e2 := strconv.Atoi(strings.TrimSuffix(f[3], ".p"))
+			w, e3 := 2, error(nil)
+			if len(f) == 5 {
+				w, e3 = strconv.Atoi(f[4])
+			}
+			wellFormed = e1 == nil && e2 == nil && e3 == nil && l >= 0 && l < 63 && n >= 0 && (len(f) == 5) == strings.HasSuffix(f[3], ".p") && (len(f) == 4 || w == 1) &&
+				f[3] == fmt.Sprintf("%03d", n)+map[bool]string{true: ".p", false: ""}[len(f) == 5] && f[2] == strconv.Itoa(l)
+			if wellFormed {
+				b, ok = st.tile(1, l, int64(n), w)
+			}
+		}
+	case "serverless":
+		b, ok = serverlessTile(tree, size, strings.TrimPrefix(p, "/"), false)
+		wellFormed = ok || serverlessTilePathOK(strings.TrimPrefix(p, "/"))
+	}
+	if !wellFormed {
+		st.mu.Lock()
+		st.bad = append(st.bad, p)
+		st.mu.Unlock()
+		http.Error(rw, "malformed tile path", 400)
+		return
+	}
+	if !ok {
+		http.NotFound(rw, rq)
+		return
+	}
+	st.mu.Lock()
+	st.served++
+	st.mu.Unlock()
+	rw.Write(b)
+}
+
 type rekorStub struct {
 	st       *tileStub
 	treeID   string
 	inactive bool // the configured tree is listed among the inactive shards; the active shard is another tree
+}
+
+// rekorMulti is one Rekor instance with several shards: the last one is the active tree, the others are listed as inactive
+// shards; proofs are asked for by tree ID.
+type rekorMulti struct{ shards []*rekorStub }
+
+func (h *rekorMulti) ServeHTTP(rw http.ResponseWriter, rq *http.Request) {
+	switch rq.URL.Path {
+	case "/api/v1/log":
+		act := h.shards[len(h.shards)-1]
+		info := map[string]any{"signedTreeHead": string(act.st.checkpoint()), "treeID": act.treeID, "treeSize": 1, "rootHash": "00"}
+		inact := []any{}
+		for _, s := range h.shards[:len(h.shards)-1] {
+			inact = append(inact, map[string]any{"signedTreeHead": string(s.st.checkpoint()), "treeID": s.treeID, "treeSize": 1, "rootHash": "00"})
+		}
+		info["inactiveShards"] = inact
+		js, _ := json.Marshal(info)
+		rw.Write(js)
+	case "/api/v1/log/proof":
+		for _, s := range h.shards {
+			if s.treeID == rq.URL.Query().Get("treeID") {
+				s.ServeHTTP(rw, rq)
+				return
+			}
+		}
+		http.NotFound(rw, rq)
+	default:
+		http.NotFound(rw, rq)
+	}
 }
 
 func (h *rekorStub) ServeHTTP(rw http.ResponseWriter, rq *http.Request) {
@@ -978,7 +1075,7 @@ func init() {
 	register(&Scenario{
 		Prop:  "C14",
 		Level: "exploration",
-		Rule:  "the real omniwitness.Main inside a synctest bubble, configured through ConfigLogs with 1..4 stub logs of the sumdb and tiles feeder types served from the reference tree (every tile path validated by the stub), in-memory or file-backed SQLite storage, the real http.Server on an in-memory listener, simnet as the only outbound network; seeded scripts of growth steps (sizes crossing 255/256/257 and 65535/65536), growth under windows of network faults (drop, 5xx, 404, truncation, corruption, garbage, stall past the client timeout, delay), graceful restarts on the same SQLite file, one published checkpoint that already carries 100 signature lines followed by ordinary ones, and finally a fork (larger, same size, smaller), half of the time while reads of the stored checkpoint fail intermittently with a status-less storage error; oracle through HTTP GET of the running service: caught up within 3 poll intervals of simulated time once faults stopped, validly cosigned, never backwards across restarts, stays on the witnessed history after a fork, log list consistent; non-trivial = at least one growth crossed a tile boundary or happened under faults, or a restart/fork happened; distinct = distinct (feeder kind, final size) and script shapes",
+		Rule:  "the real omniwitness.Main inside a synctest bubble, configured through ConfigLogs with 1..4 stub logs of the sumdb and tiles feeder types - and, beyond what the property quantifies over, of the rekor, pixel and serverless types - served from the reference tree in each type's own layout (every tile path validated by the stub), in-memory or file-backed SQLite storage, the real http.Server on an in-memory listener, simnet as the only outbound network; seeded scripts of growth steps (sizes crossing 255/256/257 and 65535/65536), growth under windows of network faults (drop, 5xx, 404, truncation, corruption, garbage, stall past the client timeout, delay), graceful restarts on the same SQLite file, one published checkpoint that already carries 100 signature lines followed by ordinary ones, and finally a fork (larger, same size, smaller), half of the time while reads of the stored checkpoint fail intermittently with a status-less storage error; oracle through HTTP GET of the running service: caught up within 3 poll intervals of simulated time once faults stopped, validly cosigned, never backwards across restarts, stays on the witnessed history after a fork, log list consistent; non-trivial = at least one growth crossed a tile boundary or happened under faults, or a restart/fork happened; distinct = distinct (feeder kind, final size) and script shapes",
 		Gen: func(r *Rng, tier string, n uint64) *Plan {
 			p := &Plan{Scenario: "main"}
 			nl := r.Range(1, 4)
@@ -987,7 +1084,7 @@ func init() {
 			var feeders []string
 			for i := 0; i < nl; i++ {
 				p.Cfg.Logs = append(p.Cfg.Logs, LogCfg{Origin: fmt.Sprintf("sim.example/main%d", i), Key: i})
-				feeders = append(feeders, Pick(r, "tiles", "tiles", "tiles", "rekor")) // only one SumDB-shaped log can exist: its origin is fixed by the format
+				feeders = append(feeders, Pick(r, "tiles", "tiles", "tiles", "rekor", "pixel", "serverless")) // only one SumDB-shaped log can exist: its origin is fixed by the format
 				p.Cfg.Extra[fmt.Sprintf("size%d", i)] = int64(Pick(r, 1, 2, 200, 254, 255, 256, 257, 300, 65530, 65536))
 				p.Cfg.Extra[fmt.Sprintf("ext%d", i)] = int64(r.IntN(2))
 				if i > 0 && r.Chance(0.25) {
@@ -1001,6 +1098,21 @@ func init() {
 				i := r.Range(1, nl-1)
 				p.Cfg.Logs[i].Origin = Pick(r, "%s ", " %s", "%s\u00a0", "Sim Example Log %s", "%s/UPPER")
 				p.Cfg.Logs[i].Origin = fmt.Sprintf(p.Cfg.Logs[i].Origin, fmt.Sprintf("sim.example/main%d", i))
+			}
+			if nl > 2 && r.Chance(0.25) {
+				// several shards of one Rekor instance
+				for i := 1; i < nl; i++ {
+					feeders[i] = "rekor"
+				}
+			}
+			nrekor := 0
+			for _, f := range feeders[1:] {
+				if f == "rekor" {
+					nrekor++
+				}
+			}
+			if nrekor >= 2 && r.Chance(0.8) {
+				p.Cfg.Extra["rekor_shared"] = 1
 			}
 			feeders[0] = []string{"sumdb", "tiles"}[n%2]
 			if feeders[0] == "sumdb" {
@@ -1091,11 +1203,11 @@ func init() {
 			return out
 		},
 		Components: map[string]string{
-			"omniwitness.Main (errgroup wiring, witness map, feeders, HTTP server, shutdown)":                                                 "real",
-			"internal/feeder/sumdb, internal/feeder/tiles (+ tessera client proof builder, x/mod tlog), internal/feeder.Run/FeedOnce/backoff": "real",
-			"internal/http + net/http.Server on an in-memory net.Pipe listener":                                                               "real",
-			"internal/witness + in-memory / file-backed SQLite persistence":                                                                   "real",
-			"log servers":                       "harness stubs (SumDB and tlog-tiles) over the reference tree; validate every tile path",
+			"omniwitness.Main (errgroup wiring, witness map, feeders, HTTP server, shutdown)":                                                                          "real",
+			"internal/feeder/sumdb, tiles, rekor, pixelbt, serverless (+ tessera and serverless-log proof builders, x/mod tlog), internal/feeder.Run/FeedOnce/backoff": "real",
+			"internal/http + net/http.Server on an in-memory net.Pipe listener":                                                                                        "real",
+			"internal/witness + in-memory / file-backed SQLite persistence":                                                                                            "real",
+			"log servers":                       "harness stubs (SumDB, tlog-tiles, Rekor JSON, Pixel height-1 tiles, serverless-log tiles) over the reference tree; validate every tile path",
 			"outbound network":                  "simnet with class-keyed seeded faults",
 			"clock, tickers, timeouts, backoff": "synctest fake clock",
 			"bastion feeder, distributor":       "not started in this check (no bastion address / distributor URL configured)",
